@@ -120,3 +120,1004 @@ Module Tests.
   Eval vm_compute in map (fun m => (m_type m, m_chan m, m_note m, m_time m)) (normalise l4).
   Eval vm_compute in map (fun m => (m_type m, m_chan m, m_note m, m_time m)) (normalise (normalise l4)).
 End Tests.
+
+(* ================================================================ Part 3: proofs *)
+
+(* ---------------------------------------------------------------- keys, dicts *)
+Definition key_of (m : msg) : k2 := (m_chan m, m_note m).
+
+Lemma k2_eqb_eq a b : k2_eqb a b = true <-> a = b.
+Proof.
+  destruct a as [a1 a2], b as [b1 b2]; unfold k2_eqb; cbn [fst snd].
+  rewrite andb_true_iff, !Z.eqb_eq. split; [intros [-> ->]; reflexivity | intros H; inversion H; auto].
+Qed.
+Lemma k2_eqb_refl a : k2_eqb a a = true.
+Proof. now apply k2_eqb_eq. Qed.
+Lemma k2_eqb_neq a b : k2_eqb a b = false <-> a <> b.
+Proof.
+  split.
+  - intros E H. apply k2_eqb_eq in H. congruence.
+  - intros N. destruct (k2_eqb a b) eqn:E; [apply k2_eqb_eq in E; contradiction | reflexivity].
+Qed.
+
+Lemma dget_dset_same k v (o : list (k2 * nat)) : dget k2_eqb k (dset k2_eqb k v o) = Some v.
+Proof.
+  induction o as [|[k' v'] o IH]; cbn [dset dget].
+  - now rewrite k2_eqb_refl.
+  - destruct (k2_eqb k k') eqn:E; cbn [dget]; rewrite E; auto.
+Qed.
+Lemma dget_dset_other k k' v (o : list (k2 * nat)) :
+  k' <> k -> dget k2_eqb k' (dset k2_eqb k v o) = dget k2_eqb k' o.
+Proof.
+  intros N. apply k2_eqb_neq in N. induction o as [|[k1 v1] o IH]; cbn [dset dget].
+  - now rewrite N.
+  - destruct (k2_eqb k k1) eqn:E; cbn [dget].
+    + apply k2_eqb_eq in E; subst k1. now rewrite N.
+    + now rewrite IH.
+Qed.
+Lemma depth_dset_same k v o : depth k (dset k2_eqb k v o) = v.
+Proof. unfold depth. now rewrite dget_dset_same. Qed.
+Lemma depth_dset_other k k' v o : k' <> k -> depth k' (dset k2_eqb k v o) = depth k' o.
+Proof. intros N. unfold depth. now rewrite dget_dset_other. Qed.
+
+(* keys of the dict are pairwise different *)
+Fixpoint dnodup (o : list (k2 * nat)) : bool :=
+  match o with [] => true | (k, _) :: o' => negb (dmem k2_eqb k o') && dnodup o' end.
+Lemma dmem_dset k k' v (o : list (k2 * nat)) :
+  dmem k2_eqb k' (dset k2_eqb k v o) = dmem k2_eqb k' o || k2_eqb k' k.
+Proof.
+  unfold dmem. destruct (k2_eqb k' k) eqn:E.
+  - apply k2_eqb_eq in E; subst k'. rewrite dget_dset_same. now rewrite orb_true_r.
+  - apply k2_eqb_neq in E. rewrite dget_dset_other by exact E. now rewrite orb_false_r.
+Qed.
+Lemma dnodup_dset k v o : dnodup o = true -> dnodup (dset k2_eqb k v o) = true.
+Proof.
+  induction o as [|[k1 v1] o IH]; cbn [dset dnodup]; [reflexivity|].
+  intros H. apply andb_true_iff in H as [H1 H2].
+  destruct (k2_eqb k k1) eqn:E; cbn [dnodup].
+  - now rewrite H1, H2.
+  - rewrite dmem_dset, IH by exact H2.
+    assert (E' : k2_eqb k1 k = false).
+    { apply k2_eqb_neq. apply k2_eqb_neq in E. congruence. }
+    rewrite E', orb_false_r, H1. reflexivity.
+Qed.
+
+(* ---------------------------------------------------------------- message type flags *)
+Lemma flags_cases m :
+  (is_wait m = true /\ is_on m = false /\ is_off m = false /\ is_ts m = false /\ is_ks m = false) \/
+  (is_wait m = false /\ is_on m = true /\ is_off m = false /\ is_ts m = false /\ is_ks m = false) \/
+  (is_wait m = false /\ is_on m = false /\ is_off m = true /\ is_ts m = false /\ is_ks m = false) \/
+  (is_wait m = false /\ is_on m = false /\ is_off m = false /\ is_ts m = true /\ is_ks m = false) \/
+  (is_wait m = false /\ is_on m = false /\ is_off m = false /\ is_ts m = false /\ is_ks m = true) \/
+  (is_wait m = false /\ is_on m = false /\ is_off m = false /\ is_ts m = false /\ is_ks m = false).
+Proof.
+  unfold is_wait, is_on, is_off, is_ts, is_ks. destruct (m_type m); cbn;
+    repeat (first [ left; repeat split; reflexivity | right ]); repeat split; reflexivity.
+Qed.
+Ltac by_flags m :=
+  let F := fresh "F" in
+  let Fw := fresh "Fw" in let Fon := fresh "Fon" in let Foff := fresh "Foff" in
+  let Fts := fresh "Fts" in let Fks := fresh "Fks" in
+  destruct (flags_cases m) as [F|[F|[F|[F|[F|F]]]]]; destruct F as (Fw & Fon & Foff & Fts & Fks);
+  rewrite ?Fw, ?Fon, ?Foff, ?Fts, ?Fks; cbn [andb orb negb].
+
+Lemma wait_flags c t f : is_wait (mk_wait c t f) = true /\ is_on (mk_wait c t f) = false /\
+  is_off (mk_wait c t f) = false /\ is_ts (mk_wait c t f) = false /\ is_ks (mk_wait c t f) = false.
+Proof. repeat split; reflexivity. Qed.
+
+(* ---------------------------------------------------------------- one step of the loop, projected *)
+Definition pend (s : nstate) (c : Z) : list msg :=
+  if 0 <? n_wait s then [mk_wait c (n_wait s) (n_waitf s)] else [].
+Definition emit (s : nstate) (m : msg) : bool :=
+  if is_wait m then false
+  else if is_on m then Nat.eqb (depth (key_of m) (n_open s)) 0
+  else if is_off m then Nat.eqb (depth (key_of m) (n_open s)) 1
+  else if is_ts m then negb (ts_eqb (m_num m, m_den m) (n_ts s))
+  else if is_ks m then negb (okey_eqb (m_key m) (n_key s))
+  else true.
+Definition nopen (s : nstate) (m : msg) : list (k2 * nat) :=
+  if is_on m then dset k2_eqb (key_of m) (S (depth (key_of m) (n_open s))) (n_open s)
+  else if is_off m then
+    match depth (key_of m) (n_open s) with O => n_open s | S d => dset k2_eqb (key_of m) d (n_open s) end
+  else n_open s.
+
+Lemma nstep_out s m : n_out (nstep s m) = if emit s m then n_out s ++ pend s (m_chan m) ++ [m] else n_out s.
+Proof.
+  destruct s as [o out w wf ts ky].
+  unfold nstep, emit, pend, flush, is_wait, is_on, is_off, is_ts, is_ks, key_of, ts_eqb.
+  cbn [n_out n_open n_wait n_waitf n_ts n_key fst snd].
+  destruct (m_type m); cbn [mtype_eqb mtype_rank Z.eqb Pos.eqb negb];
+    try (destruct (0 <? w); cbn [n_out app]; rewrite <- ?app_assoc; reflexivity).
+  - destruct (okey_eqb (m_key m) ky); cbn [negb n_out]; [reflexivity|].
+    destruct (0 <? w); cbn [n_out app]; rewrite <- ?app_assoc; reflexivity.
+  - destruct ((m_num m =? fst ts) && (m_den m =? snd ts)); cbn [negb n_out]; [reflexivity|].
+    destruct (0 <? w); cbn [n_out app]; rewrite <- ?app_assoc; reflexivity.
+  - destruct (depth (m_chan m, m_note m) o) as [|[|d]]; cbn [Nat.eqb n_out]; try reflexivity.
+    destruct (0 <? w); cbn [n_out app]; rewrite <- ?app_assoc; reflexivity.
+  - destruct (depth (m_chan m, m_note m) o) as [|d]; cbn [Nat.eqb n_out]; try reflexivity.
+    destruct (0 <? w); cbn [n_out app]; rewrite <- ?app_assoc; reflexivity.
+Qed.
+
+Lemma nstep_wait s m :
+  n_wait (nstep s m) = if is_wait m then n_wait s + m_time m
+                       else if emit s m && (0 <? n_wait s) then 0 else n_wait s.
+Proof.
+  destruct s as [o out w wf ts ky].
+  unfold nstep, emit, flush, is_wait, is_on, is_off, is_ts, is_ks, key_of, ts_eqb.
+  cbn [n_out n_open n_wait n_waitf n_ts n_key fst snd].
+  destruct (m_type m); cbn [mtype_eqb mtype_rank Z.eqb Pos.eqb negb andb n_wait];
+    try (destruct (0 <? w); reflexivity).
+  all: try destruct (okey_eqb (m_key m) ky); try destruct ((m_num m =? fst ts) && (m_den m =? snd ts));
+    try (destruct (depth (m_chan m, m_note m) o) as [|[|d]]); cbn [negb andb Nat.eqb n_wait];
+    destruct (0 <? w); reflexivity.
+Qed.
+
+Lemma nstep_open s m : n_open (nstep s m) = nopen s m.
+Proof.
+  destruct s as [o out w wf ts ky].
+  unfold nstep, nopen, flush, is_wait, is_on, is_off, is_ts, is_ks, key_of.
+  cbn [n_out n_open n_wait n_waitf n_ts n_key fst snd].
+  destruct (m_type m); cbn [mtype_eqb mtype_rank Z.eqb Pos.eqb n_open]; try reflexivity.
+  - destruct (okey_eqb (m_key m) ky); reflexivity.
+  - destruct ((m_num m =? fst ts) && (m_den m =? snd ts)); reflexivity.
+  - destruct (depth (m_chan m, m_note m) o) as [|[|d]]; reflexivity.
+  - destruct (depth (m_chan m, m_note m) o) as [|d]; reflexivity.
+Qed.
+
+Lemma nstep_ts s m :
+  n_ts (nstep s m) = if is_ts m && negb (ts_eqb (m_num m, m_den m) (n_ts s)) then (m_num m, m_den m) else n_ts s.
+Proof.
+  destruct s as [o out w wf ts ky].
+  unfold nstep, flush, is_ts, ts_eqb.
+  cbn [n_out n_open n_wait n_waitf n_ts n_key fst snd].
+  destruct (m_type m); cbn [mtype_eqb mtype_rank Z.eqb Pos.eqb n_ts andb]; try reflexivity.
+  - destruct (okey_eqb (m_key m) ky); reflexivity.
+  - destruct ((m_num m =? fst ts) && (m_den m =? snd ts)); reflexivity.
+  - destruct (depth (m_chan m, m_note m) o) as [|[|d]]; reflexivity.
+  - destruct (depth (m_chan m, m_note m) o) as [|d]; reflexivity.
+Qed.
+
+Lemma nstep_key s m :
+  n_key (nstep s m) = if is_ks m && negb (okey_eqb (m_key m) (n_key s)) then m_key m else n_key s.
+Proof.
+  destruct s as [o out w wf ts ky].
+  unfold nstep, flush, is_ks.
+  cbn [n_out n_open n_wait n_waitf n_ts n_key fst snd].
+  destruct (m_type m); cbn [mtype_eqb mtype_rank Z.eqb Pos.eqb n_key andb]; try reflexivity.
+  - destruct (okey_eqb (m_key m) ky); reflexivity.
+  - destruct ((m_num m =? fst ts) && (m_den m =? snd ts)); reflexivity.
+  - destruct (depth (m_chan m, m_note m) o) as [|[|d]]; reflexivity.
+  - destruct (depth (m_chan m, m_note m) o) as [|d]; reflexivity.
+Qed.
+
+Lemma emit_not_wait s m : emit s m = true -> is_wait m = false.
+Proof. unfold emit. destruct (is_wait m); [discriminate | reflexivity]. Qed.
+
+(* ---------------------------------------------------------------- invariants over the loop *)
+Definition init : nstate := mkn [] [] 0 false (NONE, NONE) None.
+
+Lemma fold_inv (R : nstate -> list msg -> Prop) s0 :
+  R s0 [] -> (forall s p m, R s p -> R (nstep s m) (p ++ [m])) -> forall l, R (fold_left nstep l s0) l.
+Proof.
+  intros H0 HS l. induction l as [|m l IH] using rev_ind; [exact H0|].
+  rewrite fold_left_app. cbn [fold_left]. apply HS, IH.
+Qed.
+
+Lemma nonneg_app a b : nonneg_waits (a ++ b) = nonneg_waits a && nonneg_waits b.
+Proof. unfold nonneg_waits. apply forallb_app. Qed.
+
+(* ---------------------------------------------------------------- clause 3: duration *)
+Lemma dur_rel_app a b : dur_rel (a ++ b) = dur_rel a + dur_rel b.
+Proof.
+  unfold dur_rel. rewrite filter_app, map_app.
+  induction (map m_time (filter is_wait a)) as [|x xs IH]; cbn [app sumZ]; lia.
+Qed.
+Lemma dur_rel_one m : dur_rel [m] = if is_wait m then m_time m else 0.
+Proof. unfold dur_rel. cbn [filter]. destruct (is_wait m); cbn [map sumZ]; lia. Qed.
+Lemma dur_rel_pend s c : 0 <= n_wait s -> dur_rel (pend s c) = n_wait s.
+Proof.
+  intros H. unfold pend. destruct (0 <? n_wait s) eqn:E; [apply Z.ltb_lt in E | apply Z.ltb_ge in E].
+  - rewrite dur_rel_one. destruct (wait_flags c (n_wait s) (n_waitf s)) as (-> & _). reflexivity.
+  - cbn. lia.
+Qed.
+
+Lemma dur_step s p m :
+  (is_wait m = true -> 0 <= m_time m) ->
+  dur_rel (n_out s) + n_wait s = dur_rel p /\ 0 <= n_wait s ->
+  dur_rel (n_out (nstep s m)) + n_wait (nstep s m) = dur_rel (p ++ [m]) /\ 0 <= n_wait (nstep s m).
+Proof.
+  intros NNm [D W].
+  rewrite nstep_out, nstep_wait, dur_rel_app, dur_rel_one.
+  destruct (is_wait m) eqn:Ew.
+  - assert (E : emit s m = false) by (unfold emit; now rewrite Ew). rewrite E.
+    specialize (NNm eq_refl). lia.
+  - destruct (emit s m) eqn:E; cbn [andb].
+    + rewrite !dur_rel_app, dur_rel_pend, dur_rel_one, Ew by exact W.
+      destruct (0 <? n_wait s) eqn:E0; [apply Z.ltb_lt in E0 | apply Z.ltb_ge in E0]; lia.
+    + lia.
+Qed.
+Lemma nonneg_one m : nonneg_waits [m] = true -> is_wait m = true -> 0 <= m_time m.
+Proof.
+  unfold nonneg_waits. cbn [forallb]. rewrite andb_true_r. intros H E. rewrite E in H. cbn [negb orb] in H.
+  now apply Z.leb_le.
+Qed.
+
+Lemma dur_inv l : nonneg_waits l = true ->
+  let s := fold_left nstep l init in dur_rel (n_out s) + n_wait s = dur_rel l /\ 0 <= n_wait s.
+Proof.
+  apply (fold_inv (fun s p => nonneg_waits p = true -> dur_rel (n_out s) + n_wait s = dur_rel p /\ 0 <= n_wait s)).
+  - intros _. cbn. lia.
+  - intros s p m IH NN. rewrite nonneg_app in NN. apply andb_true_iff in NN as [NNp NNm].
+    apply dur_step; [now apply nonneg_one | now apply IH].
+Qed.
+
+(* ---------------------------------------------------------------- the cleanup only removes NOTE_ON messages *)
+Lemma rlo_filter (f : msg -> bool) k l :
+  (forall m, is_on m = true -> f m = false) -> filter f (fst (remove_last_on k l)) = filter f l.
+Proof.
+  intros Hf. induction l as [|m l IH]; [reflexivity|].
+  cbn [remove_last_on]. destruct (remove_last_on k l) as [r found]. cbn [fst] in IH.
+  destruct found; [cbn [fst filter]; now rewrite IH|].
+  destruct (is_on m && k2_eqb k (m_chan m, m_note m)) eqn:C; cbn [fst filter].
+  - apply andb_true_iff in C as [C _]. now rewrite (Hf m C).
+  - now rewrite IH.
+Qed.
+Lemma cleanup_filter (f : msg -> bool) o out :
+  (forall m, is_on m = true -> f m = false) -> filter f (cleanup o out) = filter f out.
+Proof.
+  intros Hf. unfold cleanup. revert out. induction o as [|[k [|d]] o IH]; intros out; cbn [fold_left fst snd].
+  - reflexivity.
+  - apply IH.
+  - rewrite IH. now apply rlo_filter.
+Qed.
+Lemma on_not_wait m : is_on m = true -> is_wait m = false.
+Proof. by_flags m; congruence. Qed.
+Lemma on_not_ts m : is_on m = true -> is_ts m = false.
+Proof. by_flags m; congruence. Qed.
+Lemma on_not_ks m : is_on m = true -> is_ks m = false.
+Proof. by_flags m; congruence. Qed.
+
+Lemma normalise_eq l :
+  normalise l = cleanup (n_open (fold_left nstep l init)) (n_out (fold_left nstep l init) ++
+                                                            pend (fold_left nstep l init) (first_chan l)).
+Proof.
+  unfold normalise, pend. fold init. cbv zeta.
+  destruct (0 <? n_wait (fold_left nstep l init)); [reflexivity | now rewrite app_nil_r].
+Qed.
+
+Theorem C07_duration l : nonneg_waits l = true -> dur_rel (normalise l) = dur_rel l.
+Proof.
+  intros NN. destruct (dur_inv l NN) as [D W]. cbv zeta in D, W.
+  rewrite normalise_eq. unfold dur_rel at 1. rewrite cleanup_filter by exact on_not_wait.
+  fold (dur_rel (n_out (fold_left nstep l init) ++ pend (fold_left nstep l init) (first_chan l))).
+  rewrite dur_rel_app, dur_rel_pend by exact W. exact D.
+Qed.
+
+(* ---------------------------------------------------------------- clause 2: signatures *)
+Fixpoint ts_last (prev : Z * Z) (l : list msg) : Z * Z :=
+  match l with [] => prev | m :: l' => if is_ts m then ts_last (m_num m, m_den m) l' else ts_last prev l' end.
+Fixpoint ks_last (prev : option Key) (l : list msg) : option Key :=
+  match l with [] => prev | m :: l' => if is_ks m then ks_last (m_key m) l' else ks_last prev l' end.
+
+Lemma ts_ok_app a b : forall prev, ts_ok prev (a ++ b) = ts_ok prev a && ts_ok (ts_last prev a) b.
+Proof.
+  induction a as [|m a IH]; intros prev; cbn [app ts_ok ts_last]; [reflexivity|].
+  destruct (is_ts m); rewrite IH; [now rewrite andb_assoc | reflexivity].
+Qed.
+Lemma ts_last_app a b : forall prev, ts_last prev (a ++ b) = ts_last (ts_last prev a) b.
+Proof. induction a as [|m a IH]; intros prev; cbn [app ts_last]; [reflexivity|]. destruct (is_ts m); apply IH. Qed.
+Lemma ks_ok_app a b : forall prev, ks_ok prev (a ++ b) = ks_ok prev a && ks_ok (ks_last prev a) b.
+Proof.
+  induction a as [|m a IH]; intros prev; cbn [app ks_ok ks_last]; [reflexivity|].
+  destruct (is_ks m); rewrite IH; [now rewrite andb_assoc | reflexivity].
+Qed.
+Lemma ks_last_app a b : forall prev, ks_last prev (a ++ b) = ks_last (ks_last prev a) b.
+Proof. induction a as [|m a IH]; intros prev; cbn [app ks_last]; [reflexivity|]. destruct (is_ks m); apply IH. Qed.
+
+Lemma ts_ok_filter l : forall prev, ts_ok prev l = ts_ok prev (filter is_ts l).
+Proof.
+  induction l as [|m l IH]; intros prev; cbn [ts_ok filter]; [reflexivity|].
+  destruct (is_ts m) eqn:E; cbn [ts_ok]; rewrite ?E; now rewrite IH.
+Qed.
+Lemma ks_ok_filter l : forall prev, ks_ok prev l = ks_ok prev (filter is_ks l).
+Proof.
+  induction l as [|m l IH]; intros prev; cbn [ks_ok filter]; [reflexivity|].
+  destruct (is_ks m) eqn:E; cbn [ks_ok]; rewrite ?E; now rewrite IH.
+Qed.
+
+Lemma pend_ts s c prev : ts_ok prev (pend s c) = true /\ ts_last prev (pend s c) = prev.
+Proof. unfold pend. destruct (0 <? n_wait s); split; reflexivity. Qed.
+Lemma pend_ks s c prev : ks_ok prev (pend s c) = true /\ ks_last prev (pend s c) = prev.
+Proof. unfold pend. destruct (0 <? n_wait s); split; reflexivity. Qed.
+
+Lemma ts_inv l :
+  let s := fold_left nstep l init in
+  ts_ok (NONE, NONE) (n_out s) = true /\ ts_last (NONE, NONE) (n_out s) = n_ts s.
+Proof.
+  apply (fold_inv (fun s (_ : list msg) =>
+           ts_ok (NONE, NONE) (n_out s) = true /\ ts_last (NONE, NONE) (n_out s) = n_ts s)).
+  - split; reflexivity.
+  - intros s _ m [OK LAST]. rewrite nstep_out, nstep_ts. unfold emit.
+    by_flags m; try (split; assumption).
+    + destruct (_ =? _)%nat; [|split; assumption].
+      rewrite !ts_ok_app, !ts_last_app, OK, LAST.
+      destruct (pend_ts s (m_chan m) (n_ts s)) as [-> ->]. cbn [ts_ok ts_last]. rewrite Fts. split; reflexivity.
+    + destruct (_ =? _)%nat; [|split; assumption].
+      rewrite !ts_ok_app, !ts_last_app, OK, LAST.
+      destruct (pend_ts s (m_chan m) (n_ts s)) as [-> ->]. cbn [ts_ok ts_last]. rewrite Fts. split; reflexivity.
+    + destruct (ts_eqb (m_num m, m_den m) (n_ts s)) eqn:E; cbn [negb]; [split; assumption|].
+      rewrite !ts_ok_app, !ts_last_app, OK, LAST.
+      destruct (pend_ts s (m_chan m) (n_ts s)) as [-> ->]. cbn [ts_ok ts_last]. rewrite Fts, E. split; reflexivity.
+    + destruct (okey_eqb (m_key m) (n_key s)); cbn [negb]; [split; assumption|].
+      rewrite !ts_ok_app, !ts_last_app, OK, LAST.
+      destruct (pend_ts s (m_chan m) (n_ts s)) as [-> ->]. cbn [ts_ok ts_last]. rewrite Fts. split; reflexivity.
+    + rewrite !ts_ok_app, !ts_last_app, OK, LAST.
+      destruct (pend_ts s (m_chan m) (n_ts s)) as [-> ->]. cbn [ts_ok ts_last]. rewrite Fts. split; reflexivity.
+Qed.
+
+Lemma ks_inv l :
+  let s := fold_left nstep l init in
+  ks_ok None (n_out s) = true /\ ks_last None (n_out s) = n_key s.
+Proof.
+  apply (fold_inv (fun s (_ : list msg) => ks_ok None (n_out s) = true /\ ks_last None (n_out s) = n_key s)).
+  - split; reflexivity.
+  - intros s _ m [OK LAST]. rewrite nstep_out, nstep_key. unfold emit.
+    by_flags m; try (split; assumption).
+    + destruct (_ =? _)%nat; [|split; assumption].
+      rewrite !ks_ok_app, !ks_last_app, OK, LAST.
+      destruct (pend_ks s (m_chan m) (n_key s)) as [-> ->]. cbn [ks_ok ks_last]. rewrite Fks. split; reflexivity.
+    + destruct (_ =? _)%nat; [|split; assumption].
+      rewrite !ks_ok_app, !ks_last_app, OK, LAST.
+      destruct (pend_ks s (m_chan m) (n_key s)) as [-> ->]. cbn [ks_ok ks_last]. rewrite Fks. split; reflexivity.
+    + destruct (ts_eqb (m_num m, m_den m) (n_ts s)); cbn [negb]; [split; assumption|].
+      rewrite !ks_ok_app, !ks_last_app, OK, LAST.
+      destruct (pend_ks s (m_chan m) (n_key s)) as [-> ->]. cbn [ks_ok ks_last]. rewrite Fks. split; reflexivity.
+    + destruct (okey_eqb (m_key m) (n_key s)) eqn:E; cbn [negb]; [split; assumption|].
+      rewrite !ks_ok_app, !ks_last_app, OK, LAST.
+      destruct (pend_ks s (m_chan m) (n_key s)) as [-> ->]. cbn [ks_ok ks_last]. rewrite Fks, E. split; reflexivity.
+    + rewrite !ks_ok_app, !ks_last_app, OK, LAST.
+      destruct (pend_ks s (m_chan m) (n_key s)) as [-> ->]. cbn [ks_ok ks_last]. rewrite Fks. split; reflexivity.
+Qed.
+
+Theorem C07_nodup_sig l : ts_ok (NONE, NONE) (normalise l) = true /\ ks_ok None (normalise l) = true.
+Proof.
+  rewrite normalise_eq. split.
+  - rewrite ts_ok_filter, cleanup_filter by exact on_not_ts. rewrite <- ts_ok_filter.
+    destruct (ts_inv l) as [OK _]. cbv zeta in OK. rewrite ts_ok_app, OK.
+    apply (pend_ts (fold_left nstep l init)).
+  - rewrite ks_ok_filter, cleanup_filter by exact on_not_ks. rewrite <- ks_ok_filter.
+    destruct (ks_inv l) as [OK _]. cbv zeta in OK. rewrite ks_ok_app, OK.
+    apply (pend_ks (fold_left nstep l init)).
+Qed.
+
+(* ---------------------------------------------------------------- clause 1: alternation *)
+(* the automaton behind [alt]: final open/closed state, None after a violation *)
+Fixpoint alt_run (k : k2) (opn : bool) (l : list msg) : option bool :=
+  match l with
+  | [] => Some opn
+  | m :: l' =>
+      if is_key k m && is_on m then (if opn then None else alt_run k true l')
+      else if is_key k m && is_off m then (if opn then alt_run k false l' else None)
+      else alt_run k opn l'
+  end.
+Lemma alt_spec k l : forall opn, alt k opn l = true <-> alt_run k opn l = Some false.
+Proof.
+  induction l as [|m l IH]; intros opn; cbn [alt alt_run].
+  - destruct opn; cbn; split; congruence.
+  - destruct (is_key k m && is_on m); [|destruct (is_key k m && is_off m)].
+    + destruct opn; cbn [negb andb]; [split; discriminate | apply IH].
+    + destruct opn; cbn [negb andb]; [apply IH | split; discriminate].
+    + apply IH.
+Qed.
+Lemma alt_run_app k a b : forall opn,
+  alt_run k opn (a ++ b) = match alt_run k opn a with Some o' => alt_run k o' b | None => None end.
+Proof.
+  induction a as [|m a IH]; intros opn; cbn [app alt_run]; [reflexivity|].
+  destruct (is_key k m && is_on m); [|destruct (is_key k m && is_off m)].
+  - destruct opn; [reflexivity | apply IH].
+  - destruct opn; [apply IH | reflexivity].
+  - apply IH.
+Qed.
+Lemma alt_run_pend k s c opn : alt_run k opn (pend s c) = Some opn.
+Proof.
+  unfold pend. destruct (0 <? n_wait s); [|reflexivity]. cbn [alt_run].
+  destruct (wait_flags c (n_wait s) (n_waitf s)) as (_ & -> & -> & _). now rewrite !andb_false_r.
+Qed.
+
+Definition is_open (k : k2) (o : list (k2 * nat)) : bool := negb (Nat.eqb (depth k o) 0).
+
+Lemma alt_run_emit k s m b :
+  alt_run k false (n_out s) = Some b -> alt_run k false (n_out s ++ pend s (m_chan m) ++ [m]) = alt_run k b [m].
+Proof. intros A. rewrite alt_run_app, A. rewrite alt_run_app, alt_run_pend. reflexivity. Qed.
+Lemma alt_run_other k b m : is_key k m && is_on m = false -> is_key k m && is_off m = false -> alt_run k b [m] = Some b.
+Proof. intros H1 H2. cbn [alt_run]. now rewrite H1, H2. Qed.
+
+Lemma alt_step s m :
+  dnodup (n_open s) = true /\ (forall k, alt_run k false (n_out s) = Some (is_open k (n_open s))) ->
+  dnodup (n_open (nstep s m)) = true /\
+  (forall k, alt_run k false (n_out (nstep s m)) = Some (is_open k (n_open (nstep s m)))).
+Proof.
+  intros [ND A]. rewrite nstep_out, nstep_open. unfold emit, nopen. split.
+  + by_flags m; try exact ND.
+    * now apply dnodup_dset.
+    * destruct (depth (key_of m) (n_open s)); [exact ND | now apply dnodup_dset].
+  + intros k. specialize (A k). unfold is_open in *.
+    by_flags m; try exact A.
+    * (* NOTE_ON *)
+      destruct (k2_eqb k (key_of m)) eqn:E.
+      -- apply k2_eqb_eq in E. subst k. rewrite depth_dset_same. cbn [Nat.eqb negb].
+         destruct (depth (key_of m) (n_open s)) as [|d] eqn:D; cbn [Nat.eqb negb] in *; [|exact A].
+         rewrite (alt_run_emit _ _ _ _ A). cbn [alt_run]. unfold is_key. fold (key_of m).
+         now rewrite k2_eqb_refl, Fon.
+      -- assert (N : k <> key_of m) by (now apply k2_eqb_neq).
+         rewrite depth_dset_other by exact N.
+         destruct (depth (key_of m) (n_open s) =? 0)%nat; [|exact A].
+         rewrite (alt_run_emit _ _ _ _ A). apply alt_run_other; unfold is_key; fold (key_of m); now rewrite E.
+    * (* NOTE_OFF *)
+      destruct (k2_eqb k (key_of m)) eqn:E.
+      -- apply k2_eqb_eq in E. subst k.
+         destruct (depth (key_of m) (n_open s)) as [|[|d]] eqn:D; cbn [Nat.eqb negb] in *.
+         ++ rewrite D. exact A.
+         ++ rewrite depth_dset_same. cbn [Nat.eqb negb].
+            rewrite (alt_run_emit _ _ _ _ A). cbn [alt_run]. unfold is_key. fold (key_of m).
+            now rewrite k2_eqb_refl, Fon, Foff.
+         ++ rewrite depth_dset_same. exact A.
+      -- assert (N : k <> key_of m) by (now apply k2_eqb_neq).
+         assert (D' : depth k (match depth (key_of m) (n_open s) with
+                               | O => n_open s | S d => dset k2_eqb (key_of m) d (n_open s) end)
+                      = depth k (n_open s)).
+         { destruct (depth (key_of m) (n_open s)); [reflexivity | now apply depth_dset_other]. }
+         rewrite D'. destruct (depth (key_of m) (n_open s) =? 1)%nat; [|exact A].
+         rewrite (alt_run_emit _ _ _ _ A). apply alt_run_other; unfold is_key; fold (key_of m); now rewrite E.
+    * (* TIME_SIGNATURE *)
+      destruct (negb (ts_eqb _ _)); [|exact A].
+      rewrite (alt_run_emit _ _ _ _ A). apply alt_run_other; now rewrite ?Fon, ?Foff, andb_false_r.
+    * destruct (negb (okey_eqb _ _)); [|exact A].
+      rewrite (alt_run_emit _ _ _ _ A). apply alt_run_other; now rewrite ?Fon, ?Foff, andb_false_r.
+    * rewrite (alt_run_emit _ _ _ _ A). apply alt_run_other; now rewrite ?Fon, ?Foff, andb_false_r.
+Qed.
+
+Lemma alt_inv l :
+  let s := fold_left nstep l init in
+  dnodup (n_open s) = true /\ forall k, alt_run k false (n_out s) = Some (is_open k (n_open s)).
+Proof.
+  apply (fold_inv (fun s (_ : list msg) =>
+           dnodup (n_open s) = true /\ forall k, alt_run k false (n_out s) = Some (is_open k (n_open s)))).
+  - split; [reflexivity | intros k; reflexivity].
+  - intros s _ m IH. now apply alt_step.
+Qed.
+
+(* removing the last NOTE_ON of k closes an open k and does not touch the other keys *)
+Lemma rlo_notfound k l : snd (remove_last_on k l) = false -> fst (remove_last_on k l) = l.
+Proof.
+  induction l as [|m l IH]; [reflexivity|]. cbn [remove_last_on].
+  destruct (remove_last_on k l) as [r f]. cbn [fst snd] in IH.
+  destruct f; [discriminate|]. destruct (is_on m && k2_eqb k (m_chan m, m_note m)); [discriminate|].
+  intros _. cbn [fst]. now rewrite IH.
+Qed.
+
+Lemma rlo_alt_same k l : forall opn, alt_run k opn l = Some true ->
+  (snd (remove_last_on k l) = true /\ alt_run k opn (fst (remove_last_on k l)) = Some false) \/
+  (snd (remove_last_on k l) = false /\ opn = true /\ alt_run k false l = Some false).
+Proof.
+  induction l as [|m l IH]; intros opn H.
+  - cbn in H. injection H as ->. right. cbn. auto.
+  - cbn [alt_run] in H. cbn [remove_last_on].
+    pose proof (rlo_notfound k l) as NF.
+    destruct (remove_last_on k l) as [r f]. cbn [fst snd] in IH, NF.
+    assert (C : is_on m && k2_eqb k (m_chan m, m_note m) = is_key k m && is_on m) by (unfold is_key; apply andb_comm).
+    rewrite C. clear C.
+    destruct (is_key k m && is_on m) eqn:C1; [|destruct (is_key k m && is_off m) eqn:C2].
+    + destruct opn; [discriminate|]. destruct (IH true H) as [[Hf Ha]|[Hf [_ Ha]]]; subst f; cbn [fst snd]; left.
+      * split; [reflexivity|]. cbn [alt_run]. now rewrite C1.
+      * split; [reflexivity|]. now rewrite NF.
+    + destruct opn; [|discriminate]. destruct (IH false H) as [[Hf Ha]|[Hf [Habs _]]]; [|discriminate].
+      subst f. cbn [fst snd]. left. split; [reflexivity|]. cbn [alt_run]. now rewrite C1, C2.
+    + destruct (IH opn H) as [[Hf Ha]|[Hf [Ho Ha]]]; subst f; cbn [fst snd].
+      * left. split; [reflexivity|]. cbn [alt_run]. now rewrite C1, C2.
+      * right. split; [reflexivity|]. split; [exact Ho|]. cbn [alt_run]. now rewrite C1, C2.
+Qed.
+
+Lemma rlo_alt_other k k' l : k' <> k -> forall opn,
+  alt_run k' opn (fst (remove_last_on k l)) = alt_run k' opn l.
+Proof.
+  intros N. induction l as [|m l IH]; intros opn; [reflexivity|]. cbn [remove_last_on].
+  destruct (remove_last_on k l) as [r f]. cbn [fst] in IH.
+  destruct f.
+  - cbn [fst alt_run]. now rewrite !IH.
+  - destruct (is_on m && k2_eqb k (m_chan m, m_note m)) eqn:C; cbn [fst alt_run].
+    + apply andb_true_iff in C as [_ C]. apply k2_eqb_eq in C.
+      assert (E : is_key k' m = false) by (unfold is_key; rewrite <- C; now apply k2_eqb_neq).
+      rewrite E. cbn [andb]. apply IH.
+    + now rewrite !IH.
+Qed.
+
+Lemma is_open_head_same k v o : is_open k ((k, v) :: o) = negb (Nat.eqb v 0).
+Proof. unfold is_open, depth. cbn [dget]. now rewrite k2_eqb_refl. Qed.
+Lemma is_open_head_other k k0 v o : k <> k0 -> is_open k ((k0, v) :: o) = is_open k o.
+Proof. intros N. apply k2_eqb_neq in N. unfold is_open, depth. cbn [dget]. now rewrite N. Qed.
+Lemma is_open_notmem k o : dmem k2_eqb k o = false -> is_open k o = false.
+Proof. unfold dmem, is_open, depth. destruct (dget k2_eqb k o); [discriminate | reflexivity]. Qed.
+
+Lemma cleanup_cons k v o out :
+  cleanup ((k, v) :: o) out = cleanup o (match v with O => out | S _ => fst (remove_last_on k out) end).
+Proof. reflexivity. Qed.
+
+Lemma cleanup_alt o : forall out, dnodup o = true ->
+  (forall k, alt_run k false out = Some (is_open k o)) -> forall k, alt_run k false (cleanup o out) = Some false.
+Proof.
+  induction o as [|[k0 v0] o IH]; intros out ND A k.
+  - rewrite A. reflexivity.
+  - cbn [dnodup] in ND. apply andb_true_iff in ND as [NM ND]. apply negb_true_iff in NM.
+    rewrite cleanup_cons. apply IH; [exact ND|]. clear k. intros k.
+    destruct (k2_eqb k k0) eqn:E.
+    + apply k2_eqb_eq in E. subst k. rewrite (is_open_notmem _ _ NM).
+      specialize (A k0). rewrite is_open_head_same in A.
+      destruct v0 as [|v0]; [exact A|]. cbn [Nat.eqb negb] in A.
+      destruct (rlo_alt_same k0 out false A) as [[_ Ha]|[_ [Habs _]]]; [exact Ha | discriminate].
+    + apply k2_eqb_neq in E. rewrite <- (is_open_head_other k k0 v0 o E), <- A.
+      destruct v0; [reflexivity | now apply rlo_alt_other].
+Qed.
+
+Theorem C07_alternate l : forall k, alt k false (normalise l) = true.
+Proof.
+  intros k. apply alt_spec. rewrite normalise_eq.
+  destruct (alt_inv l) as [ND A]. cbv zeta in ND, A.
+  apply cleanup_alt; [exact ND|]. intros k'. rewrite alt_run_app, A. apply alt_run_pend.
+Qed.
+
+(* ---------------------------------------------------------------- clause 4: sounding set *)
+Definition b2z (b : bool) : Z := if b then 1 else 0.
+(* net depth change of key k over l *)
+Fixpoint zdelta (k : k2) (l : list msg) : Z :=
+  match l with
+  | [] => 0
+  | m :: l' => (if is_key k m && is_on m then 1 else if is_key k m && is_off m then -1 else 0) + zdelta k l'
+  end.
+(* bal without the final test *)
+Fixpoint balp (k : k2) (d : Z) (l : list msg) : bool :=
+  match l with
+  | [] => true
+  | m :: l' =>
+      if is_key k m && is_on m then balp k (d + 1) l'
+      else if is_key k m && is_off m then (0 <? d) && balp k (d - 1) l'
+      else balp k d l'
+  end.
+Definition win (b : bool) (c w t : Z) : bool := b && (c <=? t) && (t <? c + w).
+
+Lemma zdelta_app k a b : zdelta k (a ++ b) = zdelta k a + zdelta k b.
+Proof. induction a as [|m a IH]; cbn [app zdelta]; lia. Qed.
+Lemma balp_app k a b : forall d, balp k d (a ++ b) = balp k d a && balp k (d + zdelta k a) b.
+Proof.
+  induction a as [|m a IH]; intros d; cbn [app balp zdelta].
+  - now rewrite Z.add_0_r.
+  - destruct (is_key k m && is_on m); [|destruct (is_key k m && is_off m)]; rewrite IH.
+    + f_equal. f_equal. lia.
+    + rewrite andb_assoc. f_equal. f_equal. lia.
+    + f_equal.
+Qed.
+Lemma bal_split k l : forall d, bal k d l = balp k d l && (d + zdelta k l =? 0).
+Proof.
+  induction l as [|m l IH]; intros d; cbn [bal balp zdelta].
+  - now rewrite Z.add_0_r.
+  - destruct (is_key k m && is_on m); [|destruct (is_key k m && is_off m)]; rewrite IH.
+    + f_equal. f_equal. lia.
+    + rewrite andb_assoc. f_equal. f_equal. lia.
+    + reflexivity.
+Qed.
+
+Lemma dur_rel_cons m l : dur_rel (m :: l) = (if is_wait m then m_time m else 0) + dur_rel l.
+Proof. change (m :: l) with ([m] ++ l). now rewrite dur_rel_app, dur_rel_one. Qed.
+
+Lemma sounding_app k t a b : forall d cur,
+  sounding k t d cur (a ++ b) = sounding k t d cur a || sounding k t (d + zdelta k a) (cur + dur_rel a) b.
+Proof.
+  induction a as [|m a IH]; intros d cur; cbn [app sounding zdelta].
+  - unfold dur_rel. cbn. now rewrite !Z.add_0_r.
+  - rewrite dur_rel_cons. destruct (is_wait m) eqn:Ew.
+    + assert (Eon : is_on m = false) by (by_flags m; congruence).
+      assert (Eoff : is_off m = false) by (by_flags m; congruence).
+      rewrite Eon, Eoff, !andb_false_r, IH, orb_assoc. cbv iota. f_equal. f_equal; lia.
+    + destruct (is_key k m && is_on m); [|destruct (is_key k m && is_off m)]; rewrite IH; cbv iota;
+        f_equal; f_equal; lia.
+Qed.
+Lemma sounding_one_nonwait k t d c m : is_wait m = false -> sounding k t d c [m] = false.
+Proof.
+  intros Ew. cbn [sounding]. rewrite Ew.
+  destruct (is_key k m && is_on m); [|destruct (is_key k m && is_off m)]; reflexivity.
+Qed.
+Lemma win_zero b c t : win b c 0 t = false.
+Proof.
+  unfold win. destruct b; [|reflexivity]. cbn [andb].
+  destruct (c <=? t) eqn:E1; [apply Z.leb_le in E1 | reflexivity].
+  destruct (t <? c + 0) eqn:E2; [apply Z.ltb_lt in E2; lia | reflexivity].
+Qed.
+Lemma win_split b c w x t : 0 <= w -> 0 <= x -> win b c (w + x) t = win b c w t || win b (c + w) x t.
+Proof.
+  intros Hw Hx. unfold win. destruct b; [|reflexivity]. cbn [andb].
+  destruct (c <=? t) eqn:E1; [apply Z.leb_le in E1 | apply Z.leb_gt in E1];
+  destruct (t <? c + (w + x)) eqn:E2; [apply Z.ltb_lt in E2 | apply Z.ltb_ge in E2 | apply Z.ltb_lt in E2 | apply Z.ltb_ge in E2];
+  destruct (t <? c + w) eqn:E3; [apply Z.ltb_lt in E3 | apply Z.ltb_ge in E3 | apply Z.ltb_lt in E3 | apply Z.ltb_ge in E3
+                                | apply Z.ltb_lt in E3 | apply Z.ltb_ge in E3 | apply Z.ltb_lt in E3 | apply Z.ltb_ge in E3];
+  destruct (c + w <=? t) eqn:E4; try apply Z.leb_le in E4; try apply Z.leb_gt in E4;
+  destruct (t <? c + w + x) eqn:E5; try apply Z.ltb_lt in E5; try apply Z.ltb_ge in E5;
+  cbn [andb orb]; try reflexivity; lia.
+Qed.
+Lemma sounding_pend k t d c s ch : 0 <= n_wait s -> sounding k t d c (pend s ch) = win (0 <? d) c (n_wait s) t.
+Proof.
+  intros W. unfold pend. destruct (0 <? n_wait s) eqn:E; [apply Z.ltb_lt in E | apply Z.ltb_ge in E].
+  - cbn [sounding]. destruct (wait_flags ch (n_wait s) (n_waitf s)) as (-> & _). cbn [m_time mk_wait].
+    unfold win. now rewrite orb_false_r.
+  - assert (n_wait s = 0) as -> by lia. now rewrite win_zero.
+Qed.
+
+Lemma alt_run_zdelta k l : forall o b, alt_run k o l = Some b -> b2z o + zdelta k l = b2z b.
+Proof.
+  induction l as [|m l IH]; intros o b H; cbn [alt_run zdelta] in *.
+  - injection H as <-. lia.
+  - destruct (is_key k m && is_on m); [|destruct (is_key k m && is_off m)].
+    + destruct o; [discriminate|]. apply IH in H. cbn [b2z] in *. lia.
+    + destruct o; [|discriminate]. apply IH in H. cbn [b2z] in *. lia.
+    + apply IH in H. lia.
+Qed.
+
+Lemma is_open_z k o z : Z.of_nat (depth k o) = z -> is_open k o = (0 <? z).
+Proof.
+  intros H. unfold is_open. destruct (depth k o) as [|d]; subst z; cbn [Nat.eqb negb]; [reflexivity|].
+  symmetry. apply Z.ltb_lt. lia.
+Qed.
+
+Lemma nopen_wait s m : is_wait m = true -> nopen s m = n_open s.
+Proof. intros Ew. unfold nopen. by_flags m; congruence. Qed.
+
+Lemma is_open_noemit k s m : emit s m = false -> is_open k (nopen s m) = is_open k (n_open s).
+Proof.
+  unfold emit, nopen, is_open. by_flags m; try reflexivity.
+  - intros E. apply Nat.eqb_neq in E.
+    destruct (k2_eqb k (key_of m)) eqn:K.
+    + apply k2_eqb_eq in K. subst k. rewrite depth_dset_same.
+      destruct (depth (key_of m) (n_open s)); [contradiction | reflexivity].
+    + apply k2_eqb_neq in K. now rewrite depth_dset_other.
+  - intros E. apply Nat.eqb_neq in E.
+    destruct (depth (key_of m) (n_open s)) as [|[|d]] eqn:D; [reflexivity | contradiction |].
+    destruct (k2_eqb k (key_of m)) eqn:K.
+    + apply k2_eqb_eq in K. subst k. now rewrite depth_dset_same, D.
+    + apply k2_eqb_neq in K. now rewrite depth_dset_other.
+Qed.
+
+Lemma depth_step k s p m :
+  (is_key k m && is_off m = true -> 0 < zdelta k p) ->
+  Z.of_nat (depth k (n_open s)) = zdelta k p ->
+  Z.of_nat (depth k (n_open (nstep s m))) = zdelta k (p ++ [m]).
+Proof.
+  intros B DP. rewrite nstep_open, zdelta_app. cbn [zdelta]. unfold nopen.
+  destruct (is_key k m) eqn:K; unfold is_key in K; fold (key_of m) in K.
+  - apply k2_eqb_eq in K. subst k. cbn [andb] in *. revert B. by_flags m; intros B; try lia.
+    + rewrite depth_dset_same. lia.
+    + specialize (B eq_refl). destruct (depth (key_of m) (n_open s)) as [|d] eqn:D; [lia|].
+      rewrite depth_dset_same. lia.
+  - apply k2_eqb_neq in K. cbn [andb].
+    assert (E : depth k (if is_on m
+       then dset k2_eqb (key_of m) (S (depth (key_of m) (n_open s))) (n_open s)
+       else if is_off m
+        then match depth (key_of m) (n_open s) with
+             | 0%nat => n_open s
+             | S d => dset k2_eqb (key_of m) d (n_open s)
+             end
+        else n_open s) = depth k (n_open s)).
+    { destruct (is_on m); [now apply depth_dset_other|]. destruct (is_off m); [|reflexivity].
+      destruct (depth (key_of m) (n_open s)); [reflexivity | now apply depth_dset_other]. }
+    rewrite E. lia.
+Qed.
+
+Lemma snd_step k t s p m :
+  (is_wait m = true -> 0 <= m_time m) ->
+  dur_rel (n_out s) + n_wait s = dur_rel p -> 0 <= n_wait s ->
+  alt_run k false (n_out s) = Some (is_open k (n_open s)) ->
+  Z.of_nat (depth k (n_open s)) = zdelta k p ->
+  sounding k t 0 0 (n_out s) || win (is_open k (n_open s)) (dur_rel (n_out s)) (n_wait s) t = sounding k t 0 0 p ->
+  sounding k t 0 0 (n_out (nstep s m)) ||
+    win (is_open k (n_open (nstep s m))) (dur_rel (n_out (nstep s m))) (n_wait (nstep s m)) t
+  = sounding k t 0 0 (p ++ [m]).
+Proof.
+  intros NN D W A DP S.
+  rewrite nstep_out, nstep_wait, nstep_open, (sounding_app k t p [m]), <- S, !Z.add_0_l.
+  destruct (is_wait m) eqn:Ew.
+  - assert (E : emit s m = false) by (unfold emit; now rewrite Ew). rewrite E, (nopen_wait s m Ew).
+    cbn [sounding]. rewrite Ew, orb_false_r.
+    rewrite win_split by (auto using NN). rewrite (is_open_z _ _ _ DP), <- D.
+    fold (win (0 <? zdelta k p) (dur_rel (n_out s) + n_wait s) (m_time m) t).
+    now rewrite !orb_assoc.
+  - rewrite (sounding_one_nonwait k t _ _ m Ew), orb_false_r.
+    destruct (emit s m) eqn:E; cbn [andb].
+    + rewrite !sounding_app, (sounding_one_nonwait k t _ _ m Ew), orb_false_r, !Z.add_0_l.
+      rewrite sounding_pend by exact W.
+      pose proof (alt_run_zdelta _ _ _ _ A) as Z. cbn [b2z] in Z. rewrite Z.add_0_l in Z. rewrite Z.
+      assert (B : (0 <? b2z (is_open k (n_open s))) = is_open k (n_open s)) by (destruct (is_open k (n_open s)); reflexivity).
+      rewrite B.
+      assert (W0 : (if 0 <? n_wait s then 0 else n_wait s) = 0).
+      { destruct (0 <? n_wait s) eqn:E0; [reflexivity | apply Z.ltb_ge in E0; lia]. }
+      rewrite W0, win_zero, orb_false_r. reflexivity.
+    + now rewrite (is_open_noemit k s m E).
+Qed.
+
+Definition snd_R (k : k2) (t : Z) (s : nstate) (p : list msg) : Prop :=
+  nonneg_waits p = true -> balp k 0 p = true ->
+  (dur_rel (n_out s) + n_wait s = dur_rel p /\ 0 <= n_wait s) /\
+  (dnodup (n_open s) = true /\ forall k', alt_run k' false (n_out s) = Some (is_open k' (n_open s))) /\
+  Z.of_nat (depth k (n_open s)) = zdelta k p /\
+  sounding k t 0 0 (n_out s) || win (is_open k (n_open s)) (dur_rel (n_out s)) (n_wait s) t = sounding k t 0 0 p.
+
+Lemma snd_inv k t l : snd_R k t (fold_left nstep l init) l.
+Proof.
+  apply (fold_inv (snd_R k t)).
+  - intros _ _. repeat split; reflexivity.
+  - intros s p m IH NN B. rewrite nonneg_app in NN. apply andb_true_iff in NN as [NNp NNm].
+    rewrite balp_app in B. apply andb_true_iff in B as [Bp Bm].
+    destruct (IH NNp Bp) as ([D W] & [ND A] & DP & S). clear IH.
+    pose proof (nonneg_one m NNm) as NN1.
+    split; [apply dur_step; auto|]. split; [apply alt_step; auto|]. split.
+    + apply depth_step; [|exact DP]. intros C. apply andb_true_iff in C as [C1 C2].
+      assert (Eon : is_on m = false) by (by_flags m; congruence).
+      cbn [balp] in Bm. rewrite C1, C2, Eon in Bm. cbn [andb] in Bm. rewrite andb_true_r in Bm.
+      apply Z.ltb_lt in Bm. lia.
+    + apply snd_step; auto.
+Qed.
+
+Lemma depth_head_same k v o : depth k ((k, v) :: o) = v.
+Proof. unfold depth. cbn [dget]. now rewrite k2_eqb_refl. Qed.
+Lemma depth_head_other k k0 v o : k <> k0 -> depth k ((k0, v) :: o) = depth k o.
+Proof. intros N. apply k2_eqb_neq in N. unfold depth. cbn [dget]. now rewrite N. Qed.
+Lemma depth_notmem k o : dmem k2_eqb k o = false -> depth k o = 0%nat.
+Proof. unfold dmem, depth. destruct (dget k2_eqb k o); [discriminate | reflexivity]. Qed.
+
+(* no key is open at the end: the cleanup does nothing *)
+Lemma cleanup_closed o out : dnodup o = true -> (forall k, depth k o = 0%nat) -> cleanup o out = out.
+Proof.
+  induction o as [|[k0 v0] o IH]; intros ND Z; [reflexivity|].
+  cbn [dnodup] in ND. apply andb_true_iff in ND as [NM ND]. apply negb_true_iff in NM.
+  rewrite cleanup_cons. pose proof (Z k0) as Z0. rewrite depth_head_same in Z0. subst v0.
+  apply IH; [exact ND|]. intros k. destruct (k2_eqb k k0) eqn:E.
+  - apply k2_eqb_eq in E. subst k. now apply depth_notmem.
+  - apply k2_eqb_neq in E. rewrite <- (depth_head_other k k0 0%nat o E). apply Z.
+Qed.
+
+Lemma bal_nokey k l : existsb (fun m => is_note m && is_key k m) l = false -> forall d, bal k d l = (d =? 0).
+Proof.
+  induction l as [|m l IH]; cbn [existsb bal]; intros H d; [reflexivity|].
+  apply orb_false_iff in H as [H1 H2].
+  assert (C1 : is_key k m && is_on m = false).
+  { destruct (is_key k m); [|reflexivity]. rewrite andb_true_r in H1. unfold is_note in H1.
+    apply orb_false_iff in H1 as [-> _]. reflexivity. }
+  assert (C2 : is_key k m && is_off m = false).
+  { destruct (is_key k m); [|reflexivity]. rewrite andb_true_r in H1. unfold is_note in H1.
+    apply orb_false_iff in H1 as [_ ->]. reflexivity. }
+  rewrite C1, C2. now apply IH.
+Qed.
+Lemma balanced_all l : balanced l = true -> forall k, bal k 0 l = true.
+Proof.
+  intros B k. destruct (existsb (fun m => is_note m && is_key k m) l) eqn:E.
+  - apply existsb_exists in E as (m & Hin & H). apply andb_true_iff in H as [H1 H2].
+    unfold is_key in H2. apply k2_eqb_eq in H2. subst k.
+    unfold balanced in B. rewrite forallb_forall in B. specialize (B m Hin). now rewrite H1 in B.
+  - now rewrite bal_nokey.
+Qed.
+
+Theorem C07_sound l : nonneg_waits l = true -> balanced l = true ->
+  forall k t, sounding k t 0 0 (normalise l) = sounding k t 0 0 l.
+Proof.
+  intros NN B k t. pose proof (balanced_all l B) as BA.
+  assert (BP : forall k', balp k' 0 l = true /\ zdelta k' l = 0).
+  { intros k'. specialize (BA k'). rewrite bal_split in BA. apply andb_true_iff in BA as [B1 B2].
+    apply Z.eqb_eq in B2. split; [exact B1 | lia]. }
+  rewrite normalise_eq.
+  destruct (snd_inv k t l NN (proj1 (BP k))) as ([D W] & [ND A] & DP & S).
+  rewrite cleanup_closed; [|exact ND|].
+  - rewrite sounding_app, sounding_pend, !Z.add_0_l by exact W.
+    pose proof (alt_run_zdelta _ _ _ _ (A k)) as Z. cbn [b2z] in Z. rewrite Z.add_0_l in Z. rewrite Z.
+    assert (E : (0 <? b2z (is_open k (n_open (fold_left nstep l init)))) = is_open k (n_open (fold_left nstep l init)))
+      by (destruct (is_open k (n_open (fold_left nstep l init))); reflexivity).
+    rewrite E. exact S.
+  - intros k'. destruct (snd_inv k' t l NN (proj1 (BP k'))) as (_ & _ & DP' & _).
+    rewrite (proj2 (BP k')) in DP'. lia.
+Qed.
+
+(* ---------------------------------------------------------------- clause 5: normalising a well-formed list *)
+(* every wait written by the loop is positive, whatever the input *)
+Lemma rlo_forallb (f : msg -> bool) k l : forallb f l = true -> forallb f (fst (remove_last_on k l)) = true.
+Proof.
+  induction l as [|m l IH]; [reflexivity|]. cbn [remove_last_on forallb]. intros H.
+  apply andb_true_iff in H as [H1 H2]. specialize (IH H2).
+  destruct (remove_last_on k l) as [r f']. cbn [fst] in IH.
+  destruct f'; [cbn [fst forallb]; now rewrite H1, IH|].
+  destruct (is_on m && k2_eqb k (m_chan m, m_note m)); cbn [fst forallb]; [exact IH | now rewrite H1, IH].
+Qed.
+Lemma cleanup_forallb (f : msg -> bool) o : forall out, forallb f out = true -> forallb f (cleanup o out) = true.
+Proof.
+  induction o as [|[k [|d]] o IH]; intros out H; [exact H | |]; rewrite cleanup_cons; apply IH; [exact H|].
+  now apply rlo_forallb.
+Qed.
+Lemma nonneg_pend s c : nonneg_waits (pend s c) = true.
+Proof.
+  unfold pend. destruct (0 <? n_wait s) eqn:E; [apply Z.ltb_lt in E | reflexivity].
+  unfold nonneg_waits. cbn [forallb m_time mk_wait]. rewrite andb_true_r.
+  apply orb_true_iff. right. apply Z.leb_le. lia.
+Qed.
+Lemma nonneg_out l : nonneg_waits (n_out (fold_left nstep l init)) = true.
+Proof.
+  apply (fold_inv (fun s (_ : list msg) => nonneg_waits (n_out s) = true)); [reflexivity|].
+  intros s _ m IH. rewrite nstep_out. destruct (emit s m) eqn:E; [|exact IH].
+  rewrite !nonneg_app, IH, nonneg_pend. unfold nonneg_waits. cbn [forallb].
+  now rewrite (emit_not_wait s m E).
+Qed.
+Lemma nonneg_normalise l : nonneg_waits (normalise l) = true.
+Proof.
+  rewrite normalise_eq. apply cleanup_forallb. fold (nonneg_waits (n_out (fold_left nstep l init) ++
+    pend (fold_left nstep l init) (first_chan l))). now rewrite nonneg_app, nonneg_out, nonneg_pend.
+Qed.
+
+Lemma timed_app a b : forall c, timed c (a ++ b) = timed c a ++ timed (c + dur_rel a) b.
+Proof.
+  induction a as [|m a IH]; intros c; cbn [app timed].
+  - unfold dur_rel. cbn. now rewrite Z.add_0_r.
+  - rewrite dur_rel_cons. destruct (is_wait m); rewrite IH; cbn [app]; do 2 f_equal; lia.
+Qed.
+Lemma timed_pend c s ch : timed c (pend s ch) = [].
+Proof. unfold pend. destruct (0 <? n_wait s); reflexivity. Qed.
+
+Lemma depth_nopen_other k s m : k <> key_of m -> depth k (nopen s m) = depth k (n_open s).
+Proof.
+  intros K. unfold nopen.
+  destruct (is_on m); [now apply depth_dset_other|]. destruct (is_off m); [|reflexivity].
+  destruct (depth (key_of m) (n_open s)); [reflexivity | now apply depth_dset_other].
+Qed.
+
+(* on a list whose notes alternate, the depths stay in {0,1} and mirror the automaton state *)
+Lemma tight_step s p m :
+  (forall k, alt_run k false (p ++ [m]) <> None) ->
+  (forall k, alt_run k false p = Some (is_open k (n_open s)) /\ (depth k (n_open s) <= 1)%nat) ->
+  forall k, alt_run k false (p ++ [m]) = Some (is_open k (n_open (nstep s m))) /\
+            (depth k (n_open (nstep s m)) <= 1)%nat.
+Proof.
+  intros OK I k. destruct (I k) as [A L]. specialize (OK k).
+  rewrite alt_run_app, A in *. cbn [alt_run] in *. rewrite nstep_open.
+  destruct (k2_eqb k (key_of m)) eqn:E.
+  - apply k2_eqb_eq in E. subst k. unfold is_key in *. fold (key_of m) in *. rewrite k2_eqb_refl in *.
+    cbn [andb] in *. unfold nopen, is_open in *. revert OK. by_flags m; intros OK.
+    + split; [reflexivity | exact L].
+    + destruct (depth (key_of m) (n_open s)) as [|d]; cbn [Nat.eqb negb] in *; [|congruence].
+      rewrite depth_dset_same. split; [reflexivity | lia].
+    + destruct (depth (key_of m) (n_open s)) as [|[|d]]; cbn [Nat.eqb negb] in *; [congruence | | lia].
+      rewrite depth_dset_same. split; [reflexivity | lia].
+    + split; [reflexivity | exact L].
+    + split; [reflexivity | exact L].
+    + split; [reflexivity | exact L].
+  - assert (K : is_key k m = false) by exact E. rewrite K in *. cbn [andb] in *.
+    apply k2_eqb_neq in E. unfold is_open. rewrite (depth_nopen_other k s m E). split; [reflexivity | exact L].
+Qed.
+
+Lemma emit_nice s p m :
+  is_wait m = false ->
+  alt_run (key_of m) false (p ++ [m]) <> None ->
+  alt_run (key_of m) false p = Some (is_open (key_of m) (n_open s)) ->
+  (depth (key_of m) (n_open s) <= 1)%nat ->
+  ts_ok (n_ts s) [m] = true -> ks_ok (n_key s) [m] = true -> emit s m = true.
+Proof.
+  intros Ew OK A L T K. unfold emit. rewrite alt_run_app, A in OK. cbn [alt_run ts_ok ks_ok] in *.
+  unfold is_key in OK. fold (key_of m) in OK. rewrite k2_eqb_refl in OK. cbn [andb] in OK.
+  unfold is_open in OK. revert OK T K Ew. by_flags m; intros OK T K Ew.
+  - discriminate.
+  - destruct (depth (key_of m) (n_open s)); cbn [Nat.eqb negb] in *; [reflexivity | congruence].
+  - destruct (depth (key_of m) (n_open s)) as [|[|d]]; cbn [Nat.eqb negb] in *; [congruence | reflexivity | lia].
+  - now rewrite andb_true_r in T.
+  - now rewrite andb_true_r in K.
+  - reflexivity.
+Qed.
+
+Definition idem_R (s : nstate) (p : list msg) : Prop :=
+  (forall k, alt_run k false p <> None) -> ts_ok (NONE, NONE) p = true -> ks_ok None p = true ->
+  nonneg_waits p = true ->
+  timed 0 (n_out s) = timed 0 p /\
+  (dur_rel (n_out s) + n_wait s = dur_rel p /\ 0 <= n_wait s) /\
+  (forall k, alt_run k false p = Some (is_open k (n_open s)) /\ (depth k (n_open s) <= 1)%nat) /\
+  n_ts s = ts_last (NONE, NONE) p /\ n_key s = ks_last None p.
+
+Lemma idem_inv l : idem_R (fold_left nstep l init) l.
+Proof.
+  apply (fold_inv idem_R).
+  - intros _ _ _ _. repeat split; try reflexivity. cbn. lia.
+  - intros s p m IH OK TS KS NN.
+    assert (OKp : forall k, alt_run k false p <> None).
+    { intros k H. apply (OK k). now rewrite alt_run_app, H. }
+    rewrite ts_ok_app in TS. apply andb_true_iff in TS as [TSp TSm].
+    rewrite ks_ok_app in KS. apply andb_true_iff in KS as [KSp KSm].
+    rewrite nonneg_app in NN. apply andb_true_iff in NN as [NNp NNm].
+    destruct (IH OKp TSp KSp NNp) as (TM & [D W] & I & Ets & Eks). clear IH.
+    pose proof (nonneg_one m NNm) as NN1.
+    split; [|split; [apply dur_step; auto | split; [now apply tight_step|]]].
+    + rewrite nstep_out, timed_app, Z.add_0_l. cbn [timed].
+      destruct (is_wait m) eqn:Ew.
+      * assert (E : emit s m = false) by (unfold emit; now rewrite Ew). rewrite E, app_nil_r. exact TM.
+      * destruct (I (key_of m)) as [A L]. rewrite <- Ets in TSm. rewrite <- Eks in KSm.
+        rewrite (emit_nice s p m Ew (OK (key_of m)) A L TSm KSm).
+        rewrite !timed_app, timed_pend, TM, Z.add_0_l. cbn [app timed]. rewrite Ew.
+        rewrite dur_rel_pend by exact W. now rewrite D.
+    + rewrite nstep_ts, nstep_key, ts_last_app, ks_last_app, <- Ets, <- Eks. cbn [ts_last ks_last].
+      cbn [ts_ok ks_ok] in TSm, KSm. rewrite <- Ets in TSm. rewrite <- Eks in KSm. split.
+      * destruct (is_ts m); [|reflexivity]. rewrite andb_true_r in TSm. now rewrite TSm.
+      * destruct (is_ks m); [|reflexivity]. rewrite andb_true_r in KSm. now rewrite KSm.
+Qed.
+
+(* normalising a list that is already well-formed keeps every non-wait message at its tick *)
+Lemma normalise_wellformed o :
+  (forall k, alt k false o = true) -> ts_ok (NONE, NONE) o = true -> ks_ok None o = true ->
+  nonneg_waits o = true -> timed 0 (normalise o) = timed 0 o.
+Proof.
+  intros AL TS KS NN.
+  assert (A0 : forall k, alt_run k false o = Some false) by (intros k; now apply alt_spec).
+  assert (OK : forall k, alt_run k false o <> None) by (intros k; now rewrite A0).
+  destruct (idem_inv o OK TS KS NN) as (TM & [D W] & I & _).
+  destruct (alt_inv o) as [ND _]. cbv zeta in ND.
+  rewrite normalise_eq, cleanup_closed; [|exact ND|].
+  - now rewrite timed_app, timed_pend, app_nil_r.
+  - intros k. destruct (I k) as [A _]. rewrite A0 in A. injection A as A. unfold is_open in A.
+    destruct (depth k (n_open (fold_left nstep o init))); [reflexivity | discriminate].
+Qed.
+
+Theorem C07_idem l :
+  timed 0 (normalise (normalise l)) = timed 0 (normalise l) /\
+  dur_rel (normalise (normalise l)) = dur_rel (normalise l).
+Proof.
+  split.
+  - apply normalise_wellformed.
+    + apply C07_alternate.
+    + apply C07_nodup_sig.
+    + apply C07_nodup_sig.
+    + apply nonneg_normalise.
+  - apply C07_duration, nonneg_normalise.
+Qed.
+
+(* ================================================================ non-vacuity and necessity of the hypotheses *)
+(* the hypotheses are satisfiable by non-trivial inputs *)
+Example C07_duration_nonvacuous : nonneg_waits Tests.l1 = true /\ dur_rel Tests.l1 = 19.
+Proof. vm_compute. split; reflexivity. Qed.
+Example C07_sound_nonvacuous :
+  nonneg_waits Tests.l3 = true /\ balanced Tests.l3 = true /\
+  sounding (0, 60) 4 0 0 Tests.l3 = true /\ sounding (0, 60) 8 0 0 Tests.l3 = false.
+Proof. vm_compute. repeat split; reflexivity. Qed.
+
+(* a negative wait is lost: the duration clause needs non-negative waits *)
+Example C07_duration_needs_nonneg : exists l, dur_rel (normalise l) <> dur_rel l.
+Proof. exists [mk_wait 0 (-3) false]. vm_compute. discriminate. Qed.
+
+(* an unclosed note sounds in the input and is removed from the output: the sound clause needs paired notes *)
+Example C07_sound_needs_balanced :
+  exists l k t, nonneg_waits l = true /\ sounding k t 0 0 (normalise l) <> sounding k t 0 0 l.
+Proof. exists [mk_on 0 60 64 0 false; mk_wait 0 5 false], (0, 60), 2. vm_compute. split; [reflexivity | discriminate]. Qed.
+
+(* the second pass is not the identity on lists: it rewrites the channel of the final wait (paired input) ... *)
+Example C07_idem_not_syntactic :
+  exists l, nonneg_waits l = true /\ balanced l = true /\ normalise (normalise l) <> normalise l.
+Proof.
+  exists Tests.l4. split; [reflexivity|]. split; [reflexivity|].
+  intros H. apply (f_equal (map m_chan)) in H. vm_compute in H. discriminate.
+Qed.
+(* ... and merges the two waits left around a removed unclosed NOTE_ON (ill-formed input) *)
+Example C07_idem_merges_waits :
+  exists l, nonneg_waits l = true /\ length (normalise (normalise l)) <> length (normalise l).
+Proof.
+  exists [mk_wait 0 1 false; mk_on 0 60 64 0 false; mk_wait 0 2 false].
+  split; [reflexivity|]. vm_compute. discriminate.
+Qed.
+
+(* the specification predicates do reject ill-formed lists (they are not trivially true) *)
+Example C07_predicates_reject :
+  alt (0, 60) false [Tests.on 0 60; Tests.on 0 60; Tests.off 0 60] = false /\      (* re-trigger *)
+  alt (0, 60) false [Tests.on 0 60; Tests.w 1] = false /\                           (* unclosed *)
+  alt (0, 60) false [Tests.off 0 60; Tests.on 0 60; Tests.off 0 60] = false /\      (* orphan off *)
+  alt (0, 60) false [Tests.on 0 60; Tests.on 1 60; Tests.off 0 60; Tests.off 1 60] = true /\
+  ts_ok (NONE, NONE) [Tests.ts 4 4; Tests.w 1; Tests.ts 4 4] = false /\
+  ts_ok (NONE, NONE) [Tests.ts 4 4; Tests.ts 3 4; Tests.ts 4 4] = true /\
+  ks_ok None [Tests.ks (Some K_C); Tests.ks (Some K_C)] = false /\
+  balanced [Tests.on 0 60; Tests.w 1] = false /\ balanced [Tests.off 0 60; Tests.on 0 60] = false.
+Proof. vm_compute. repeat split; reflexivity. Qed.
